@@ -154,6 +154,46 @@ def crlHandler (enabled : Bool) (g : G) (pem : Bool) : Resp :=
     | none => { status := 500, expires := 0, pem := false, body := none }
     | some c => { status := 200, expires := c.nextUpdate, pem := pem, body := some c }
 
+/-! ## configuration plumbing of the CRL section (durations in nanoseconds, as `time.Duration`)
+
+  /repo/authority/config/config.go `Config.Init` (enabled and no cacheDuration ⇒ 24 h), `CRLConfig.Validate`
+  (negative durations refused; renewPeriod > cacheDuration refused when both are set), /repo/authority/authority.go `init`
+  (cacheDuration nil or ≤ 0 ⇒ 24 h), `CRLConfig.TickerDuration` (renewPeriod when > 0, else (cacheDuration / 3) * 2 in
+  integer nanoseconds; 0 when disabled). `pipeline` is what a CA started from a ca.json goes through, in that order. -/
+
+def dayNs : Int := 86400000000000
+
+structure CRLCfg where
+  enabled : Bool
+  cache : Option Int
+  renew : Option Int
+  deriving Repr, DecidableEq
+
+def CRLCfg.init (c : CRLCfg) : CRLCfg :=
+  if c.enabled && c.cache.isNone then { c with cache := some dayNs } else c
+
+def CRLCfg.valid (c : CRLCfg) : Bool :=
+  (match c.cache with | some d => decide (0 ≤ d) | none => true) &&
+  (match c.renew with | some r => decide (0 ≤ r) | none => true) &&
+  (match c.renew, c.cache with | some r, some d => decide (r ≤ d) | _, _ => true)
+
+def CRLCfg.effective (c : CRLCfg) : CRLCfg :=
+  if !c.enabled then c else
+  match c.cache with
+  | none => { c with cache := some dayNs }
+  | some d => if d ≤ 0 then { c with cache := some dayNs } else c
+
+/-- `TickerDuration` on a configuration whose cache duration is set -/
+def CRLCfg.ticker (c : CRLCfg) : Int :=
+  if !c.enabled then 0 else
+  match c.renew with
+  | some r => if 0 < r then r else (c.cache.getD 0 / 3) * 2
+  | none => (c.cache.getD 0 / 3) * 2
+
+/-- (cache duration, ticker period) of a started CA; `none` = the configuration is refused -/
+def pipeline (c : CRLCfg) : Option (Int × Int) :=
+  if !c.init.valid then none else some ((c.init.effective.cache.getD 0), c.init.effective.ticker)
+
 /-! ## reload: a new authority on the same database, the old one closed for reload
 
   /repo/ca/ca.go `CA.Reload` builds a new `Authority` with `WithDatabase(ca.auth.GetDatabase())` — new
